@@ -9,6 +9,11 @@ from . import REGISTRY
 
 
 def main():
+    if sys.argv[1] == "--call":
+        mod, fn = sys.argv[2].split(":")
+        r = getattr(importlib.import_module(mod), fn)()
+        print(json.dumps(bool(r)))
+        return
     prop, tier = sys.argv[1], (sys.argv[2] if len(sys.argv) > 2 else "quick")
     here = os.path.dirname(os.path.abspath(__file__))
     for f in sorted(os.listdir(here)):
